@@ -116,6 +116,14 @@ class HeapMixin:
                     st.pc.append(self.spec_bool(SpecEnv(st, {"self": v}), self.reg.obj_invariants[v.cls]))
                 finally:
                     self._in_inv = False
+        if isinstance(v, VRef) and v.cls in self.reg.struct_facts and not self.verifying.split("#")[0].endswith(".__init__"):
+            from .speceval import SpecEnv
+            if not getattr(self, "_in_inv", False):
+                self._in_inv = True
+                try:
+                    st.pc.append(self.spec_bool(SpecEnv(st, {"self": v}), self.reg.struct_facts[v.cls]))
+                finally:
+                    self._in_inv = False
         if isinstance(v, (VRef, VList, VDict, VDeque, VSet)):
             st.pc.append(And(Lt(I(0), v.t), Lt(v.t, st.alloc)))
             if isinstance(v, VRef) and not self.reg.models.get(v.cls, None) is None and self.reg.models[v.cls].builtin:
